@@ -27,8 +27,8 @@ impl Prop for C02 {
 
     fn budget(tier: Tier) -> Budget {
         match tier {
-            Tier::Quick => Budget { cases: 1500, shards: 16 },
-            Tier::Thorough => Budget { cases: 40_000, shards: 16 },
+            Tier::Quick => Budget { cases: 6000, shards: 16 },
+            Tier::Thorough => Budget { cases: 48000, shards: 16 },
         }
     }
 
